@@ -1,8 +1,8 @@
 (* Resolver/RecursiveModel.v -- executable model of crates/dns-resolver/src/recursive.rs:
    resolve_recursive (60 s budget), resolve_recursive_notimeout (candidate
    selection, the fast/slow candidate passes, referral handling),
-   resolve_with_nameserver_response (cache inserts, the glue shortcut for A/AAAA
-   questions, CNAME continuation), resolve_combined_recursive,
+   resolve_with_nameserver_response (cut_at_local_authority, cache inserts, the
+   glue shortcut for A/AAAA questions, CNAME continuation), resolve_combined_recursive,
    resolve_hostname_to_ip (the four ProtocolModes), candidate_nameservers.
    Definitions only.
 
@@ -71,6 +71,48 @@ Fixpoint insert_sorted (x : dname) (l : list dname) : list dname :=
   end.
 (* candidate_hostnames.sort() of hook H5 (stable; equal names are identical) *)
 Definition sort_names_ord (l : list dname) : list dname := fold_right insert_sorted [] l.
+
+(* Iterator::position *)
+Fixpoint position {A} (p : A -> bool) (l : list A) : option nat :=
+  match l with
+  | [] => None
+  | x :: t => if p x then Some O else option_map S (position p t)
+  end.
+
+(* the closure given to position in cut_at_local_authority and in
+   resolve_forwarding_notimeout:
+   rr.name != question.name && zones.get(&rr.name).is_some_and(Zone::is_authoritative) *)
+Definition owned_elsewhere (zs : zones) (q : question) (r : rr) : bool :=
+  negb (dname_eqb (rr_name r) (q_name q))
+  && match zones_get zs (rr_name r) with
+     | Some z => zone_is_authoritative z
+     | None => false
+     end.
+
+(* rrs[..i].to_vec() and rrs[i].name.clone() for the i found by position: the
+   slice and the index are panic sites (i >= len), never reached *)
+Definition cut_rrs (zs : zones) (q : question) (rrs : list rr) : res unit (option (list rr * dname)) :=
+  match position (owned_elsewhere zs q) rrs with
+  | Some i => match nth_error rrs i with
+              | Some r => Ok (Some (firstn i rrs, rr_name r))
+              | None => Panic
+              end
+  | None => Ok None
+  end.
+
+(* cut_at_local_authority *)
+Definition cut_at_local_authority (zs : zones) (q : question) (nr : nsresponse) : res unit nsresponse :=
+  match nr with
+  | NRDelegation _ _ => Ok nr
+  | NRAnswer rrs _ | NRCname rrs _ =>
+    match cut_rrs zs q rrs with
+    | Ok (Some (prefix, name)) => Ok (NRCname prefix name)
+    | Ok None => Ok nr
+    | Err e => Err e
+    | Panic => Panic
+    | OutOfFuel => OutOfFuel
+    end
+  end.
 
 Section Recursive.
   Variable cache : Type.
@@ -165,8 +207,9 @@ Section Recursive.
           if negb (is_nil glue) then Some (ROk (NonAuthoritative (prioritising_merge combined glue) None)) else None
         else None.
 
-      (* resolve_with_nameserver_response: inl = Ok(result), inr = Err(delegation) *)
-      Definition resolve_with_nameserver_response (stack : list question) (combined : list rr)
+      (* resolve_with_nameserver_response, the `match nameserver_response`:
+         inl = Ok(result), inr = Err(delegation) *)
+      Definition resolve_with_response_match (stack : list question) (combined : list rr)
                  (nr : nsresponse) (q : question) : RM (rres + nameservers) :=
         match nr with
         | NRAnswer rrs soa_rr =>
@@ -184,6 +227,14 @@ Section Recursive.
                                           (mkq cname (q_type q) (q_class q)) ;;
           ret (inl r)
         end.
+
+      (* resolve_with_nameserver_response:
+         let nameserver_response = cut_at_local_authority(context.zones, question, nameserver_response);
+         match nameserver_response { .. } *)
+      Definition resolve_with_nameserver_response (stack : list question) (combined : list rr)
+                 (nr : nsresponse) (q : question) : RM (rres + nameservers) :=
+        do nr' <- lift_res (cut_at_local_authority zs q nr) ;;
+        resolve_with_response_match stack combined nr' q.
 
       (* one round of the loop of resolve_hostname_to_ip *)
       Definition hostname_try (stack : list question) (locally : bool) (hostname : dname) (rtype : N)
